@@ -15,9 +15,10 @@ Open Scope Z_scope.
 Inductive argk := ALit | AOther.
 Record attr := { aname : string; aargs : list argk }.
 
-(* `attr.Name == nm && len(attr.Args) > 0 { if lit, ok := attr.Args[0].(ptr parser.Literal); ok { has = true } }` *)
-Definition sets_flag (nm : string) (a : attr) : bool :=
-  String.eqb (aname a) nm && match aargs a with ALit :: _ => true | _ => false end.
+(* `if attr.Name != "group" && attr.Name != "binding" { continue } ... if attr.Name == "group" { hasGroup = true } else { hasBinding = true }`
+   : the attribute counts as present whatever its argument is (a non-literal argument is
+   evaluated as a const-expression; an evaluation error is a different diagnostic) *)
+Definition sets_flag (nm : string) (a : attr) : bool := String.eqb (aname a) nm.
 
 Definition has_group_model (attrs : list attr) : bool := existsb (sets_flag "group") attrs.
 Definition has_binding_model (attrs : list attr) : bool := existsb (sets_flag "binding") attrs.
@@ -41,13 +42,13 @@ Definition int64 (v : Z) : Prop := - two63 <= v < two63.
 Inductive size_verdict := SizeError | SizeConst (n : Z) | SizeDynamic.
 
 (* ev = result of evalConstantIntExpr (an int64) or None when it returned an error
-     if n, ok := l.tryEvalConstantUint(t.Size); ok {      n = uint64(val)
-        if n == 0 { return error }
+     if _, n, err := l.evalConstantIntExpr(t.Size); err == nil {
+        if n <= 0 { return error }
         constSize := uint32(n) ... }                      otherwise the size stays nil (runtime-sized) *)
 Definition array_size_model (ev : option Z) : size_verdict :=
   match ev with
   | None => SizeDynamic
-  | Some v => let n := v mod two64 in if n =? 0 then SizeError else SizeConst (n mod two32)
+  | Some v => if v <=? 0 then SizeError else SizeConst (v mod two32)
   end.
 
 (* SPEC: the element count must be a (const) integer greater than zero *)
